@@ -79,6 +79,38 @@ def run(ctx):
                 check_filter_closure(ctx, prog, f, clo, what)
             ctx.ob("R1b", "def:" + what, ok, f.loc(0), "running total assigned `%s`" % r[:200], f)
         ctx.floor("R1b", "checked definitions of the running total", n_checked, 2)
+    # R3: the children's gas is joined on every path through the ComputeResult arm
+    ctx.rule("R3", "the gas reported by compute children is added (checked, limit-filtered) on every path through the ComputeResult arm, before the loop is left or continued")
+    cfg = f.cfg()
+    arms = []
+    for b in range(len(f.blocks)):
+        if f.term(b)["k"] != "switch" or f.blocks[b]["cleanup"]:
+            continue
+        base = {a.text for a in C.conditions(prog, f, b)}
+        for y in f.succs(b):
+            new = [a.text for a in C.conditions(prog, f, y) if a.text not in base]
+            if any(re.match(r"^is:ComputeResult\(", a) for a in new):
+                arms.append(y)
+    if ctx.anchor("R3", "ComputeResult arm of Vm::exec", len(arms) == 1, f.loc(0)):
+        y = arms[0]
+        region = {x for x in range(len(f.blocks)) if cfg.dominates(y, x)} | {y}
+        joins = {bb for bb, t in f.calls() if bb in region and M.callee_of(t).endswith("u64>::checked_add")}
+        escaped = []
+        seen, todo = {y}, [y]
+        while todo:
+            x = todo.pop()
+            if x in joins:
+                continue
+            for z in f.succs(x):
+                if f.term(z)["k"] == "unreachable":
+                    continue
+                if z not in region:
+                    escaped.append(f.loc(x))
+                elif z not in seen:
+                    seen.add(z)
+                    todo.append(z)
+        ctx.ob("R3", "compute-gas-joined-before-leaving-the-arm", len(joins) == 1 and not escaped, f.loc(y),
+               "checked additions in the arm: %d; paths that leave the arm before the addition: %s" % (len(joins), escaped[:3]), f)
     # R2
     n_arith = 0
     for fn in prog.fns_by_crate["essential_vm"] + prog.fns_by_crate["essential_check"]:
